@@ -189,9 +189,60 @@ def known_suffix(t, I):
     return known
 
 
-def table_lines(t, slot, I, eoi):
+def item_cert_lines(parser, productions, start, I):
+    """LR(1) item sets of a freshly generated parser as [20; state; pcode; dot; look-aheads] lines;
+    pcode = 1 + position of the production in `productions` (0 = the seed S' -> start).
+    Untrusted certificate for LR/Complete.check_complete."""
+    from compiler.front_end import lr1
+    _need(parser.item_sets is not None, "parser has no item sets")
+    pos = {}
+    for k, p in enumerate(productions):
+        pos.setdefault((p.lhs, tuple(p.rhs)), k)
+    lines = []
+    for st, items in enumerate(parser.item_sets):
+        cores = collections.defaultdict(set)
+        for it in items:
+            _need(isinstance(it, lr1.Item), "item set %d contains %r" % (st, it))
+            key = (it.production.lhs, tuple(it.production.rhs))
+            if key == (lr1.START_PRIME, (start,)):
+                pcode = 0
+            else:
+                _need(key in pos, "item production %r is not in the grammar" % (key,))
+                pcode = pos[key] + 1
+            cores[(pcode, it.dot)].add(I.s(it.terminal))
+        for (pcode, dot), las in sorted(cores.items()):
+            lines.append([20, st, pcode, dot] + sorted(las))
+    return lines
+
+
+def first_cert_lines(productions, I):
+    """nullable / FIRST of every nonterminal, recomputed here (untrusted certificate) as
+    [21; X; nullable; terminals...] lines."""
+    nts = set(p.lhs for p in productions)
+    nullable, first = set(), {x: set() for x in nts}
+    changed = True
+    while changed:
+        changed = False
+        for p in productions:
+            allnull = True
+            for x in p.rhs:
+                add = first[x] if x in nts else {x}
+                if not add <= first[p.lhs]:
+                    first[p.lhs] |= add
+                    changed = True
+                if not (x in nts and x in nullable):
+                    allnull = False
+                    break
+            if allnull and p.lhs not in nullable:
+                nullable.add(p.lhs)
+                changed = True
+    return [[21, I.s(x), 1 if x in nullable else 0] + sorted(I.s(t) for t in first[x]) for x in sorted(nts)]
+
+
+def table_lines(t, slot, I, eoi, item_lines=()):
     """Lines (lists of ints) that define table `t` in `slot`."""
     body = [[1, slot, eoi, 1 if t.dflt else 0]]
+    body.extend(item_lines)
     for st in sorted(t.action):
         l = [3, st]
         for e in t.action[st]:
@@ -939,10 +990,19 @@ class Bench:
         self.cmds = []        # (line, handler)
         self.nflush = 0
 
-    def add_table(self, parser, slot):
+    def add_table(self, parser, slot, items_for=None):
+        """items_for = (productions, start): also dump the parser's LR(1) item sets (certificate for
+        check_complete against the grammar whose production list is `productions`, in that order)"""
         t = translate_parser(parser, self.I)
-        self.defs += table_lines(t, slot, self.I, self.eoi)
+        il = item_cert_lines(parser, items_for[0], items_for[1], self.I) if items_for else ()
+        t.item_lines = il
+        self.defs += table_lines(t, slot, self.I, self.eoi, il)
         return t
+
+    def cmd_complete(self, gslot, slot, productions, handler):
+        for l in first_cert_lines(productions, self.I):
+            self.cmds.append((l, None))
+        self.cmds.append(([22, gslot, slot], handler))
 
     def add_tab(self, t, slot):
         self.defs += table_lines(t, slot, self.I, self.eoi)
